@@ -2,7 +2,7 @@
    valid_input = every pair has a char in U+0000..U+10FFFF and a glyph id in 1..65535;
    canon input = the input sorted and de-duplicated (what from_mappings works with). *)
 From Coq Require Import ZArith List.
-From FV Require Import Lib.RustInt C08.Model C08.Proofs C08.Iter4 C08.Fits4 C08.Var14.
+From FV Require Import Lib.RustInt C08.Model C08.Proofs C08.Iter4 C08.Fits4 C08.Var14 C08.Reader.
 Import ListNotations.
 Open Scope Z_scope.
 
@@ -100,6 +100,55 @@ Proof. exact format4_build_refuted_beyond_fits4_lemma. Qed.
 Theorem cmap14_answers : forall sels, wf14 sels -> forall c sel, cmap14_map_variant sels c sel = cmap14_spec sels c sel.
 Proof. exact cmap14_answers_lemma. Qed.
 
+(* ---- round 4 ---- *)
+(* The format-4 iterator enumerates exactly the pairs the lookup answers, each once, in ascending order
+   (built tables; U+FFFF, the sentinel, excepted as everywhere). *)
+Theorem cmap4_iter_is_lookup : forall input t4 o12, valid_input input -> from_mappings input = Built (Some t4) o12 ->
+  asc (cmap4_iter t4) /\
+  forall c g, 0 <= c -> c <> 65535 -> (In (c, g) (cmap4_iter t4) <-> cmap4_map t4 c = Some g).
+Proof. exact cmap4_iter_is_lookup_lemma. Qed.
+
+(* ARBITRARY decoded segment arrays (unsorted end codes, overlapping segments, offsets outside the glyph
+   array, arrays of different lengths ...): *)
+(* the reader never panics: its two arithmetic panic sites (u16 `codepoint - start_code`, usize `len - index`)
+   are unreachable in map_codepoint and in the iterator, for every table whose code arrays hold 16-bit values *)
+Theorem cmap4_reader_total : forall t, u16_codes t ->
+  (forall c, cmap4_map_chk t c = Some (cmap4_map t c)) /\ cmap4_iter_chk t = Some (cmap4_iter t).
+Proof. exact cmap4_reader_total_lemma. Qed.
+(* whatever map_codepoint answers is the value, by the format's formula, of a segment that contains c *)
+Theorem cmap4_map_sound_any : forall t c g, cmap4_map t c = Some g ->
+  c <= 65535 /\ exists i sc ec, nth_error (startc t) i = Some sc /\ nth_error (endc t) i = Some ec /\
+                                sc <= c <= ec /\ cmap4_lookup_glyph_id t c i sc = Some g.
+Proof. exact cmap4_map_sound_any_lemma. Qed.
+(* that value: delta arithmetic modulo 65536, or glyphIdArray[idRangeOffset/2 + (c-start) - (segCount-i)] with
+   0 = missing; an id_range_offset pointing outside the glyph array answers None *)
+Theorem cmap4_lookup_value : forall t c i sc d ro, nth_error (deltas t) i = Some d -> nth_error (roffs t) i = Some ro ->
+  cmap4_lookup_glyph_id t c i sc =
+    if ro =? 0 then Some ((c + d) mod 65536)
+    else match nth_error (gida t) (seg_glyph_index t c i sc ro) with
+         | None => None
+         | Some gid => if gid =? 0 then None else Some ((gid + d) mod 65536)
+         end.
+Proof. exact cmap4_lookup_value_lemma. Qed.
+Theorem cmap4_lookup_out_of_array : forall t c i sc d ro, nth_error (deltas t) i = Some d -> nth_error (roffs t) i = Some ro ->
+  ro <> 0 -> (length (gida t) <= seg_glyph_index t c i sc ro)%nat -> cmap4_lookup_glyph_id t c i sc = None.
+Proof. exact cmap4_lookup_out_of_array_lemma. Qed.
+(* on sorted arrays (any, not only the writer's) the search is complete: the answer is the value of a
+   containing segment, or None when no segment contains c *)
+Theorem cmap4_map_sorted_any : forall t c, sorted4 t -> c <= 65535 ->
+  (exists i sc ec, nth_error (startc t) i = Some sc /\ nth_error (endc t) i = Some ec /\ sc <= c <= ec /\
+                   cmap4_map t c = cmap4_lookup_glyph_id t c i sc)
+  \/ (cmap4_map t c = None /\
+      forall i sc ec, nth_error (startc t) i = Some sc -> nth_error (endc t) i = Some ec -> ~ (sc <= c <= ec)).
+Proof. exact cmap4_map_sorted_any_lemma. Qed.
+(* the iterator yields strictly ascending code points on every table (no repeats, no backwards slide) *)
+Theorem cmap4_iter_asc_any : forall t, asc (cmap4_iter t).
+Proof. exact cmap4_iter_asc_any_lemma. Qed.
+(* the boolean the shards evaluate on every format-14 table (generated and the test font's) implies wf14,
+   the hypothesis of cmap14_answers *)
+Theorem wf14b_reflects : forall sels, wf14b sels = true -> wf14 sels.
+Proof. exact wf14b_sound. Qed.
+
 Print Assumptions cmap4_answers.
 Print Assumptions cmap4_answers_in.
 Print Assumptions segments_partition.
@@ -118,3 +167,11 @@ Print Assumptions format4_build_total.
 Print Assumptions format4_build_panics_beyond_fits4.
 Print Assumptions format4_build_refuted_beyond_fits4.
 Print Assumptions cmap14_answers.
+Print Assumptions cmap4_iter_is_lookup.
+Print Assumptions cmap4_reader_total.
+Print Assumptions cmap4_map_sound_any.
+Print Assumptions cmap4_lookup_value.
+Print Assumptions cmap4_lookup_out_of_array.
+Print Assumptions cmap4_map_sorted_any.
+Print Assumptions cmap4_iter_asc_any.
+Print Assumptions wf14b_reflects.
